@@ -69,6 +69,26 @@ CLAIMED = {
             "Theorems C01_stream_refines, C01_packet_refines for every definition of the modelled subset and every stream of well-formed packets. The subset and its exclusions are listed in DESIGN.md.",
             "Trusted: Coq kernel+VM; Flocq (+ real axioms); the XML loader is tied to the document model under C09/C16/C17; correspondence sampling of documents.",
             "DESIGN.md section 4 C01"),
+    "C18": ("Coq proof (per-packet accumulation step: other APIDs untouched, own APID appended at the end, columns only grow; field-set mismatch = ValueError; integer encodings of 1..64 bits fit their dtype; float64/inferred lossless; S/U lossless without trailing NUL, and a machine-checked refutation with witness for trailing NULs) + explicit numpy storage model + kernel-evaluated correspondence with create_dataset in raw and derived mode",
+            "Seven theorems (Props/C18.v) incl. C18_trailing_nul_refuted (the full no-loss statement is false of the faithful model: numpy S/U dtypes strip trailing NULs; recorded as open known finding KF-C18-nul, matched structurally). partial: float32 exactness for binary32 fields is tied by correspondence.",
+            "Trusted: Coq kernel+VM; Flocq; numpy's storage rule as modelled; xarray as a pass-through. Genuine defects F14a, F14c, F14d found by this check and repaired by fix: commits.",
+            "DESIGN.md section 4 C18"),
+    "C17": ("Coq proof (type/parameter tables duplicate-free and resolving; linked graph: base references resolve, caches hold the document's own definitions, inheritor lists exactly the containers naming the base, each once; duplicate type and dangling type reference rejected) + loader model (recursive base/nested resolution with fuel) + kernel-evaluated correspondence on documents and single-point corruptions, with object identity checked by the dumper",
+            "Six theorems (Props/C17.v). partial: rejection of container-level corruptions (dangling entry/base, conflicting duplicate, cycles = out of fuel) is established by the correspondence (the executable statement: a corrupted document must be rejected), not by a general theorem; Python object identity has no Gallina counterpart.",
+            "Trusted: Coq kernel+VM; lxml parsing; the harness' typed-attribute conversion table.",
+            "DESIGN.md section 4 C17"),
+    "C16": ("Coq proof (the element view the readers use is invariant under removal of comments and inter-element whitespace at any depth, by tree induction; the namespace state is overwritten before first use, so any history of loads is irrelevant; prefix name / default namespace irrelevant) + kernel-evaluated correspondence: 4 namespace spellings x decorations x load histories in one process vs the plain rendering",
+            "Five theorems (Props/C16.v). partial: the no-namespace spelling and XML text <-> tree are lxml's and reached only by the correspondence.",
+            "Trusted: Coq kernel+VM; lxml; the modelling decision that readers touch documents only through find/iterfind/attrib/text (checked by decorated-document correspondence). Genuine defect F9 found by this check and repaired by a fix: commit.",
+            "DESIGN.md section 4 C16"),
+    "C09": ("Coq proof of the write/read round trip for every criteria form (comparisons, conditions, ANDed/ORed trees of any depth by nested induction, criteria lists) and calibrators + full reader/writer/loader model + kernel-evaluated correspondence: implementation writer tree = model writer tree element by element, and the definition loaded back = the original (independent dumper incl. adjusters, identity), for definitions built both ways; identical decoding on packets",
+            "Six theorems named ..._partial (Props/C09.v): the full C09_roundtrip statement is proved for criteria and calibrators; encodings, parameter types, parameters, containers and the document level are covered by the executable round-trip check on the implementation and by model = implementation on both directions.",
+            "Trusted: Coq kernel+VM; str()/int()/float() attribute conversions (typed attributes); lxml serialisation/parsing. Genuine defects F12a, F12b found by this check and repaired by fix: commits.",
+            "DESIGN.md section 4 C09"),
+    "C15": ("Coq proof (every element of the written tree is in the definition's namespace, by induction over all writers; writer is a function of definition and date; criteria stable under further cycles) + implementation runs: W(D)=W(D) bytes, G2=G3 bytes, lxml re-parse, namespace of every element, definition dump unchanged",
+            "Three theorems (Props/C15.v). partial: byte-level serialisation is lxml's; G2 = G3 at document level follows from C09's executable round trip (reloaded = original) and is observed directly on bytes.",
+            "Trusted: Coq kernel+VM; lxml serialisation.",
+            "DESIGN.md section 4 C15"),
 }
 PENDING_REASON = "check not built yet in this round; design in DESIGN.md section 4 (no technique switch planned)"
 
